@@ -24,6 +24,7 @@ def run(ctx: Ctx, chk) -> None:
     chk.run_rule(chain_eq, ctx)
     chk.run_rule(verdep1, ctx)
     chk.run_rule(except1, ctx)
+    chk.run_rule(tables.handler_state_rule, ctx)
 
 
 def vt(s: str):
